@@ -144,7 +144,17 @@ type c18Use struct {
 }
 
 func c18Scenario(use string, dotu bool, part, parts int) Scenario {
+	return c18ScenarioRoot(use, dotu, part, parts, "abs")
+}
+
+// rootStyle: how the server is told its root - "abs" (absolute path), "dot" (the
+// process has changed into the export and the root is "."), "rel" (a relative name,
+// the process standing in the parent directory)
+func c18ScenarioRoot(use string, dotu bool, part, parts int, rootStyle string) Scenario {
 	name := fmt.Sprintf("confine use=%s dotu=%v part=%d/%d", use, dotu, part, parts)
+	if rootStyle != "abs" {
+		name += " root-given-as=" + rootStyle
+	}
 	return Scenario{Name: name, Run: func(rc *RunCtx) *Result {
 		res := &Result{Exhaustive: true}
 		env := c18Setup()
@@ -186,7 +196,16 @@ func c18Scenario(use string, dotu bool, part, parts int) Scenario {
 			rootIno = func() uint64 { fi, _ := os.Lstat(env.root); return fi.Sys().(*syscall.Stat_t).Ino }()
 			var leak string
 			body := func() {
-				h := newUfsH(env.root, 8216, dotu)
+				ufsRoot := env.root
+				switch rootStyle {
+				case "dot":
+					os.Chdir(env.root)
+					ufsRoot = "."
+				case "rel":
+					os.Chdir(filepath.Dir(env.root))
+					ufsRoot = filepath.Base(env.root)
+				}
+				h := newUfsH(ufsRoot, 8216, dotu)
 				cl := h.Connect()
 				ver := "9P2000"
 				if dotu {
@@ -342,6 +361,9 @@ func c18Scenario(use string, dotu bool, part, parts int) Scenario {
 				}
 			}
 			x := vs.Run(nil, body, vs.Options{Horizon: 100000000})
+			if rootStyle != "abs" {
+				os.Chdir("/")
+			}
 			res.Evals++
 			res.Nontrivial++
 			if len(x.Panics) > 0 {
@@ -403,6 +425,13 @@ func c18Scenarios(tier string) []Scenario {
 	for p := 0; p < parts; p++ {
 		out = append(out, c18Scenario("symlink", true, p, parts), c18Scenario("link", true, p, parts))
 		out = append(out, c18Scenario("mkfifo", true, p, parts))
+		// the root given relative to where the process stands
+		for i, u := range []string{"attach", "walk1", "rename", "create"} {
+			out = append(out, c18ScenarioRoot(u, (i+p)%2 == 0, p, parts, "dot"))
+			if tier == "thorough" || (i+p)%2 == 0 {
+				out = append(out, c18ScenarioRoot(u, (i+p)%2 == 1, p, parts, "rel"))
+			}
+		}
 		if tier == "thorough" || p == 0 {
 			out = append(out, c18Scenario("mknod", true, p, parts), c18Scenario("mksock", true, p, parts))
 		}
@@ -414,7 +443,7 @@ func init() {
 	_ = vs.Active
 	register(&Property{ID: "C18", Level: "exploration",
 		Technique: "bounded-exhaustive enumeration of hostile names in every position, executed on the real Ufs over a scratch export with canaries outside",
-		Rule:      "names = every sequence of <= 3 components over {'..', '.', '', 'x' (file), 'd' (directory), 'nope'} joined by '/', with and without leading and trailing '/', plus 4- and 5-level '..' chains and 11 absolute host paths (the export, its spelling as a prefix of a sibling file and of a sibling directory (absolute and through '..'), its parent and neighbours, '/etc', '/') (about 1000 names), used as attach name, single walk element and element list (<= 4, plus two more '..') from the root and from depth 1 and 2, create name for files, directories, symlinks, hard links, named pipes, devices and sockets (the created fid is then read and used like any other), and wstat rename target (the renamed fid is then used like any other); every resulting fid is then stat'ed, walked towards the canaries, listed/read, written, created in, wstat'ed and removed. Oracle: nothing outside the export changes (names, contents, modes, mtimes), no reply carries a qid or data of an outside object, '..' at the root is the root. non-trivial = names x uses executed",
+		Rule:      "names = every sequence of <= 3 components over {'..', '.', '', 'x' (file), 'd' (directory), 'nope'} joined by '/', with and without leading and trailing '/', plus 4- and 5-level '..' chains and 11 absolute host paths (the export, its spelling as a prefix of a sibling file and of a sibling directory (absolute and through '..'), its parent and neighbours, '/etc', '/') (about 1000 names), used as attach name, single walk element and element list (<= 4, plus two more '..') from the root and from depth 1 and 2, create name for files, directories, symlinks, hard links, named pipes, devices and sockets (the created fid is then read and used like any other), and wstat rename target (the renamed fid is then used like any other); every resulting fid is then stat'ed, walked towards the canaries, listed/read, written, created in, wstat'ed and removed. Oracle: the server's root given as an absolute path, as '.' (process inside the export) and as a relative name; nothing outside the export changes (names, contents, modes, mtimes), no reply carries a qid or data of an outside object, '..' at the root is the root. non-trivial = names x uses executed",
 		Assumptions: []string{"the export is nested 12 levels below the scratch base, deeper than any generated '..' chain (the checks run as root on the real file system)", "the exported tree contains no symlink leaving it (the property's premise); symlink targets supplied by the client are not followed by the check"},
 		Scenarios:   c18Scenarios, QuickS: 110, ThoroughS: 900})
 }
